@@ -63,6 +63,10 @@ CLAIMS['C18'] = ('Bounded symbolic model checking of MaterialFile: each of the n
 CLAIMS['C17'] = ('Bounded symbolic model checking of JonesFresnel (R+T=1 for s and p with symbolic n1, n2, angle below critical; Brewster; normal incidence), the six polarizers (idempotent Hermitian projectors onto their stated state, for arbitrary complex input), '
     'retarders (unitary, stated retardance, element(theta) = R(theta) element(0) R(-theta)), the diattenuator rotation identity (fails: known finding F8), one uncoated polarised surface step (|E|^2 preserved, E.k = 0) and the angle of incidence; complex arithmetic as pairs of reals, trigonometry axiomatised with angle-sum rules.',
     'meridional incidence in the quick tier (skew and the unpolarised-mean clause in thorough); quarter/half-wave plates to within 1e-9 because the code carries rounded constants; whole-lens polarised traces are covered only through the per-surface step (induction)')
+CLAIMS['C08'] = ('Bounded symbolic model checking of the real Aberrations / AberrationOperand code on K=1..2 (thorough 3) spherical lenses with all radii, thicknesses, indices, aperture and field symbolic, stop first or second, infinite or finite object: '
+    'each per-surface third-order term = Welford surface contribution / (2 n\'u\') (oracle written from curvatures, indices and the paraxial rays), sums = -Welford S_I..S_V, defining identities (TCC=3CC, longitudinal = transverse/(-u\'), accessors, seidels(), operands), '
+    'stop-shift invariance of S_I and S_IV, first-order colour terms with a symbolic-dispersion model glass (off-by-one height: known finding F20) and after a medium edit.',
+    'paraxial marginal/chief rays taken from the library (their correctness is C04); the small-aperture limit clause (real ray error -> TSC) is in the thorough tier via truncated power series; conics/aspheres not covered (property restricts to spheres and planes)')
 NOT_YET = 'check not built yet in this round (work in progress; see DESIGN.md section 6 for the plan)'
 
 props = [json.loads(l) for l in open(os.path.join(ROOT, 'properties.jsonl'))]
